@@ -2,6 +2,7 @@ package catalog
 
 import (
 	"encoding/json"
+	"sync"
 
 	"github.com/jsightapi/jsight-schema-core/bytes"
 	"github.com/jsightapi/jsight-schema-core/notations/regex"
@@ -11,9 +12,23 @@ import (
 
 type ExchangeRegexSchema struct {
 	*regex.RSchema
+
+	// The example generator of the regex schema is stateful: every call gives
+	// another example. The first one is kept, so serialisation is repeatable.
+	onceExample sync.Once
+	example     []byte
+	exampleErr  error
 }
 
-func (e ExchangeRegexSchema) MarshalJSON() ([]byte, error) {
+// Example returns the same example on every call.
+func (e *ExchangeRegexSchema) Example() ([]byte, error) {
+	e.onceExample.Do(func() {
+		e.example, e.exampleErr = e.RSchema.Example()
+	})
+	return e.example, e.exampleErr
+}
+
+func (e *ExchangeRegexSchema) MarshalJSON() ([]byte, error) {
 	data := struct {
 		Content  interface{}             `json:"content,omitempty"`
 		Example  string                  `json:"example,omitempty"`
@@ -39,7 +54,7 @@ func (e ExchangeRegexSchema) MarshalJSON() ([]byte, error) {
 	return json.Marshal(data)
 }
 
-func (e ExchangeRegexSchema) Notation() notation.SchemaNotation {
+func (e *ExchangeRegexSchema) Notation() notation.SchemaNotation {
 	return notation.SchemaNotationRegex
 }
 
